@@ -163,17 +163,16 @@ Proof.
   rewrite !agg_spec. apply sumQ_ext; intros i Hi. apply sumQ_ext; intros j Hj. reflexivity.
 Qed.
 
-(* one pass of the outer loop keeps the invariant *)
-Lemma und_step n0 Wo n W prev moves :
+(* one pass of the outer loop keeps the invariant (lbf = the labels of the level's nodes when its sweeps end) *)
+Lemma grid_step n0 Wo n W prev lbf :
   sym_on n0 Wo -> lab1_ok n0 n prev -> on_grid n0 Wo n W prev ->
-  let fin := und_fin n W moves in
-  let m0 := lev_m0 n (lab fin) in let n' := lev_n n (lab fin) in
+  let m0 := lev_m0 n lbf in let n' := lev_n n lbf in
   let W1 := tabQ n' n' (agg_upper n W m0) in
   let cih := tabv O n0 (compose_lab n prev (fun i => S (m0 i))) in
   lab1_ok n0 n' cih /\ on_grid n0 Wo n' W1 cih /\ (forall x, (x < n0)%nat -> cih x = S (m0 (p1 prev x))).
 Proof.
-  intros Hs Hp Hg fin m0 n' W1 cih.
-  destruct (compose_step n0 n n' prev m0 Hp (lev_m0_lt n (lab fin)) (lev_m0_surj n (lab fin))) as [Hc E]. fold cih in Hc, E.
+  intros Hs Hp Hg m0 n' W1 cih.
+  destruct (compose_step n0 n n' prev m0 Hp (lev_m0_lt n lbf) (lev_m0_surj n lbf)) as [Hc E]. fold cih in Hc, E.
   split; [exact Hc|]. split; [|exact E].
   intros a b Ha Hb. unfold W1. rewrite tabQ_spec by assumption.
   rewrite (agg_upper_sym n W m0 a b (on_grid_sym n0 Wo n W prev Hs Hg)).
@@ -182,6 +181,15 @@ Proof.
   rewrite !agg_spec. apply sumQ_ext; intros i Hi. apply sumQ_ext; intros j Hj.
   unfold p1 at 3 4. rewrite (E i Hi), (E j Hj). reflexivity.
 Qed.
+
+Lemma und_step n0 Wo n W prev moves :
+  sym_on n0 Wo -> lab1_ok n0 n prev -> on_grid n0 Wo n W prev ->
+  let fin := und_fin n W moves in
+  let m0 := lev_m0 n (lab fin) in let n' := lev_n n (lab fin) in
+  let W1 := tabQ n' n' (agg_upper n W m0) in
+  let cih := tabv O n0 (compose_lab n prev (fun i => S (m0 i))) in
+  lab1_ok n0 n' cih /\ on_grid n0 Wo n' W1 cih /\ (forall x, (x < n0)%nat -> cih x = S (m0 (p1 prev x))).
+Proof. intros Hs Hp Hg fin. apply grid_step; assumption. Qed.
 
 (* q[h] of a level == modularity, on the ORIGINAL matrix, of the labels ci[h] of the original nodes *)
 Lemma und_level_q n0 Wo g n' W1 cih : sym_on n0 Wo -> lab1_ok n0 n' cih -> on_grid n0 Wo n' W1 cih ->
